@@ -2,6 +2,7 @@ package wire
 
 import (
 	"bytes"
+	"github.com/gobwas/ws"
 	"math/rand"
 
 	"github.com/gobwas/ws/wsutil"
@@ -25,6 +26,9 @@ func C16Write(r *eng.Run) {
 	// How the destination fails: for good or only once, with a plain error
 	// or with a net.Error that calls itself a timeout and temporary.
 	failOnce, netErr := r.T.Bool(sim.LFault), r.T.Chance(sim.LFault, 1, 3)
+	// After the failure the application may start over with ResetOp (which is
+	// not Reset: same destination, same writer, the error stays).
+	resetOp := r.T.Chance(sim.LHist, 1, 4)
 	exec := func(failAt, failN int) *WRun {
 		rand.Seed(rseed)
 		p := NewPipe(r, nil)
@@ -47,6 +51,10 @@ func C16Write(r *eng.Run) {
 			}
 			if fired < 0 && p.WriteFailed() {
 				fired = i
+				if resetOp {
+					wr.W.ResetOp(ws.OpCode(cfg.Op))
+					r.Probe("reset_op_after_failed_write")
+				}
 			}
 		})
 		if cfg.Ctor == 4 {
